@@ -83,6 +83,11 @@ def classify(res):
     if not res.failed_checks:
         return "limit"
     limit_markers = ("unwinding assertion", "is not currently supported by Kani", "unsupported", "recursion unwinding")
+    # an assertion of the harness about ITSELF (description starting with "harness:", e.g. a ghost table too small for this
+    # shape) failed: the harness' model is not faithful for this run, so nothing it reports - including other failed
+    # assertions - is a statement about the code: tool limit
+    if any(c["description"].startswith("harness:") for c in res.failed_checks):
+        return "limit"
     real = [c for c in res.failed_checks if not any(k in c["description"] for k in limit_markers)]
     return "property" if real else "limit"
 
